@@ -2,6 +2,7 @@ package main
 
 import (
 	"fmt"
+	"sync"
 	"go/constant"
 	"go/token"
 	"go/types"
@@ -156,10 +157,23 @@ func namedOf(t types.Type) *types.Named {
 	}
 }
 
+// structCanon maps a struct type to the named type that declares it with a struct literal, so that
+// `type B A` (a method-set alias such as tdcOneTimeExchanger) shares A's field keys. Set by load().
+var structCanon = map[*types.Struct]*types.Named{}
+var structCanonMu sync.RWMutex
+
 func typeKey(t types.Type) string {
 	n := namedOf(t)
 	if n == nil {
 		return shortName(t.String())
+	}
+	if st, ok := n.Underlying().(*types.Struct); ok {
+		structCanonMu.RLock()
+		cn, ok := structCanon[st]
+		structCanonMu.RUnlock()
+		if ok {
+			n = cn
+		}
 	}
 	if n.Obj().Pkg() == nil {
 		return n.Obj().Name()
